@@ -279,6 +279,8 @@ def run(rep, facts, tier):
         counts[name] = prov(rep, cfg, f)
         entry_values(rep, cfg)
         samplers(rep, cfg)
+        from . import c01
+        c01.isqrt_zero_cases(rep, cfg)      # decode hands out a point only if ISQRT(1, 0) reports "not square" (s = -1 has den = 0)
         c17.curve_constants(rep, f, name)
     rep.analysed["construction_sites"] = counts
     if "A" in counts:
